@@ -285,6 +285,15 @@ CLAIMED["C19"]["text"] += (
     "(fstat identity of every number) equals `sfmodel fdworld` for all 90 open/close orders of handle triples (sf_open, sf_open_fd close_desc 1/0, SD2, ALAC, r/w/rw) with sentinel descriptors; "
     "the isolation predicate and each handle's solo-vs-merged results are judged on the implementation's transcripts.")
 
+CLAIMED["C04"]["text"] += (
+    " Round 5 (small containers, group 4): MAT5 and SDS have byte-exact models (lean/SfModel/Mat5.lean, SdsFile.lean) with universal theorems in lean/SfProps/C04Mat5.lean"
+    " (mat5_reopen_info without any size guard, mat5_size_fields, mat5_snapshot_valid, mat5_crash_image_any_header, mat5_rate_exact) and C04Sds.lean (sds_updates_dont_change_file: any session"
+    " closes to the file of one write call, sds_size_fields, sds_reopen_info, sds_snapshot_valid, sds_rate_inrange / _ge / _exact); campaign vlib/small4.py. SD2's resource fork is still Table-level only."
+)
+CLAIMED["C11"]["text"] += " Round 5: the SDS whole-file sessions of vlib/small4.py (image after a header update byte for byte, read back, closed file independent of updates) run in this check too."
+CLAIMED["C07"]["text"] += " Round 5: the SDS whole-file sessions of vlib/small4.py (closed bytes equal those of one write call without header updates) run in this check too."
+
+
 def main():
     checks = []
     for p in PROPS:
